@@ -353,6 +353,7 @@ func checkC03(p *Prog, r *Report) {
 	checkC03Forwarder(p, r, rFw, rId, rOrd, top)
 	checkC03Sink(p, r, rId)
 	checkStreamLifetime(p, r, r.Rule("stream-lifetime", "nothing puts a clock on a shell's streams: no request-wide server deadline, TimeoutHandler or connection deadline, and the broker gets the request's own context (or a child without a deadline)"))
+	checkBodyUntouched(p, r, r.Rule("body-untouched", "on the routes which hand the request body to the broker nothing else reads it (no form parsing)"))
 	checkC03TerminalWriter(p, r, r.Rule("terminal-writer", "the io.Writer under the terminal library hands each slice it is given to the terminal once (no retry loop re-issuing the same slice)"))
 	/* Close notice after the proxy: from the connect model. */
 	if a := findConnect(p); 0 == len(a.Errs) {
@@ -881,6 +882,9 @@ func checkStreamLifetime(p *Prog, r *Report, ru *Rule) {
 				return
 			}
 			switch nm := calleeName(cc); nm {
+			case "net/http.MaxBytesHandler", "net/http.MaxBytesReader":
+				nb++
+				ru.Bad(fnName(fn)+":"+lastName(nm), posOf(i), "%s caps request bodies — a shell's output stream is a request body: past the cap nothing more of the shell's output is shown", lastName(nm))
 			case "net/http.TimeoutHandler":
 				nb++
 				ru.Bad(fnName(fn)+":TimeoutHandler", posOf(i), "handlers run under http.TimeoutHandler: a shell's stream is ended when the time is up")
@@ -923,4 +927,71 @@ func isZeroTimeValue(v ssa.Value) bool {
 		}
 	}
 	return true
+}
+
+
+// checkBodyUntouched: the shell's output is the request's body, and the
+// broker is its only reader.  Nothing on a shell route asks net/http to parse
+// the body as a form (FormValue and friends read it for form content types).
+func checkBodyUntouched(p *Prog, r *Report, ru *Rule) {
+	n := 0
+	for _, rt := range muxRoutes(p) {
+		if nil == rt.Handler {
+			continue
+		}
+		reach := map[*ssa.Function]bool{}
+		var visit func(f *ssa.Function)
+		visit = func(f *ssa.Function) {
+			if nil == f || reach[f] || !inModule(f) || nil == f.Blocks {
+				return
+			}
+			reach[f] = true
+			for _, a := range f.AnonFuncs {
+				visit(a)
+			}
+			eachInstr(f, func(i ssa.Instruction) {
+				if c := callCommon(i); nil != c {
+					visit(c.StaticCallee())
+				}
+			})
+		}
+		visit(rt.Handler)
+		takesBody := false
+		for f := range reach {
+			eachInstr(f, func(i ssa.Instruction) {
+				if c := callCommon(i); nil != c && nil != c.StaticCallee() && "Broker" == recvTypeName(c.StaticCallee()) {
+					switch c.StaticCallee().Name() {
+					case "ConnectOut", "ConnectInOut":
+						takesBody = true
+					}
+				}
+			})
+		}
+		if !takesBody {
+			continue
+		}
+		n++
+		c := fmt.Sprintf("route %s→%s:body-untouched", rt.Pattern, fnName(rt.Handler))
+		var bad ssa.Instruction
+		for f := range reach {
+			eachInstr(f, func(i ssa.Instruction) {
+				cc := callCommon(i)
+				if nil == cc || nil != bad {
+					return
+				}
+				switch calleeName(cc) {
+				case "(*net/http.Request).FormValue", "(*net/http.Request).PostFormValue", "(*net/http.Request).ParseForm", "(*net/http.Request).ParseMultipartForm", "(*net/http.Request).FormFile", "(*net/http.Request).MultipartReader":
+					bad = i
+				}
+			})
+		}
+		if nil != bad {
+			ru.Bad(c, posOf(bad), "on this route %s is called (in %s): for form content types net/http reads the request body to answer it — the shell's output, which the broker then never sees", lastName(calleeName(callCommon(bad))), fnName(bad.Parent()))
+		} else {
+			ru.OK(c, rt.Pos, "nothing on the route parses the request body as a form")
+		}
+	}
+	if n < 2 {
+		ru.Unproven("routes:body-untouched", token.NoPos, "%d routes hand a request body to the broker, at least 2 expected", n)
+	}
 }
